@@ -70,7 +70,7 @@ def run(ctx):
   pc = ctx.func('config.parse_config')
   g2, facts2 = std_facts(prog, pc)
   binds = [n for n in g2.live_nodes() if any(prog.resolve_call(pc, c) == 'config.bind_parameter' for c in calls_of_node(n))]
-  ctx.expect_at_least('bind sites in the statement consumer', len(binds), 2)
+  ctx.expect_at_least('bind sites in the statement consumer', len(binds), 1)
   for n in binds:
     fs = facts2[n.id]
     macro = ('c', 'arg_name', False) in fs
